@@ -148,6 +148,19 @@ func checkHeader(c *mon.Ctx, h *ref.PES) (b []byte, hdrEnd int, ok bool) {
 			bad("dts-value", fmt.Sprintf("DTS()=%d, encoded %d", ph.DTS(), h.DTS))
 		}
 	}
+	// the header is rendered as text (every method of the object that returns one string): a read like the getters
+	if ok {
+		for _, t := range mon.Printed(ph) {
+			_ = t
+		}
+		c.Count("header_rendered_as_text")
+		if !bytes.Equal(b, snap) {
+			bad("input-modified-by-printing", fmt.Sprintf("rendering the decoded header as text (String / Format ...) changed the caller's buffer at byte %d", ref.FirstDiff(b, snap)))
+			copy(b, snap)
+		} else if !bytes.Equal(ph.Data(), snap[hdrEnd:]) {
+			bad("data-changed-by-printing", "Data() no longer returns the bytes after the header once the header was rendered as text")
+		}
+	}
 	// the scalar getters of a decoded header do not follow later writes to the caller's buffer
 	// (Data() may alias the input and is not included)
 	if ok && !ref.PESNoOptionalHeader(h.StreamID) && len(b) > 0 {
